@@ -390,6 +390,8 @@ def prove_zero(expr, assumptions_subs=None, budget=60, numeric_points=None, nume
         e = e.doit()
     if e == 0:
         return "proved", {"method": "syntactic"}
+    if e.has(sp.zoo, sp.nan, sp.oo, -sp.oo):
+        return "failed", {"witness": {}, "value": "non-finite (division by zero / NaN) in the symbolic result", "relative": "inf"}
     # numeric refutation first (cheap, and gives a witness)
     import mpmath
     syms = sorted(e.free_symbols, key=str)
@@ -401,6 +403,7 @@ def prove_zero(expr, assumptions_subs=None, budget=60, numeric_points=None, nume
         fn = None
     old = mpmath.mp.dps
     mpmath.mp.dps = 50
+    nok = 0
     try:
         for pt in pts:
             try:
@@ -411,6 +414,7 @@ def prove_zero(expr, assumptions_subs=None, budget=60, numeric_points=None, nume
                 else:
                     v = sp.N(e.subs(pt), 50)
                     scale = max([abs(sp.N(a_.subs(pt), 50)) for a_ in terms] + [sp.Float(1)])
+                nok += 1
                 if abs(v) / scale > mpmath.mpf("1e-25"):
                     return "failed", {"witness": {str(k_): str(v_) for k_, v_ in pt.items()}, "value": str(mpmath.nstr(v, 12)) if fn is not None else str(v),
                                       "relative": str(mpmath.nstr(abs(v) / scale, 6)) if fn is not None else ""}
@@ -418,6 +422,8 @@ def prove_zero(expr, assumptions_subs=None, budget=60, numeric_points=None, nume
                 continue
     finally:
         mpmath.mp.dps = old
+    if numeric_only and nok < 2 and syms:
+        return "undecided", {"reason": "numeric evaluation succeeded at %d of %d points only" % (nok, len(pts))}
     if numeric_only:
         return "numeric-ok", {"points": len(pts), "tolerance": "1e-25 relative, 50 digits"}
     for method, f in (("expand", lambda x: sp.expand(x)),
